@@ -2,6 +2,7 @@
 EXTENDS MetricLearn
 CONSTANTS Depth
 DimOf(d) == d + 1        \* data set 1 has 2 features, data set 2 has 3 features
+CanonOf(p) == IF p = 3 THEN 1 ELSE p      \* setting 3 = setting 1 with verbose=True
 BoundedDepth == TLCGet("level") <= Depth
 View == <<objs, handles>>
 =============================================================================
